@@ -180,7 +180,7 @@ func (qc queueCaller) PipelineRecv(ctx context.Context, transform []capnp.Pipeli
 			path:  clientPathFromTransform(transform),
 			Recv:  r,
 		})
-		basis := len(qc.aq.q) - 1
+		basis := len(qc.aq.q) // bases[0] is the answer itself, bases[i+1] the result of q[i]
 		qc.aq.mu.Unlock()
 		return queueCaller{aq: qc.aq, basis: basis}
 	}
